@@ -16,7 +16,7 @@ from simkit.tape import mix
 from . import common as C
 
 KINDS = ["bytes", "buffer", "sim", "raw_eager", "raw_lazy", "wav_eager",
-         "wav_lazy", "stdin", "raw_fifo"]
+         "wav_lazy", "stdin"]
 
 
 # ------------------------------------------------------------------ model
@@ -201,7 +201,10 @@ class Engine:
         wav_trailer = T.draw(3) == 0
         closed_oserror = T.draw(2) == 0
         pre_open = T.weighted([(5, 0), (1, 1), (1, 2), (1, 3)])
-        preroll = T.weighted([(5, 0), (1, 1), (1, 3), (1, 7)])
+        T.weighted([(5, 0), (1, 1), (1, 3), (1, 7)])
+        # (a source handed over half-consumed is not generated any more:
+        # what "the source audio" is then is not fixed by the statements)
+        preroll = 0
         record = bool(T.draw(2)) if prop == "C19" else (T.draw(4) == 0)
         use_recorder_class = bool(T.draw(2))
         ops = []
@@ -218,7 +221,9 @@ class Engine:
             sc_extra = 0
         # C19: the history is carried out by two threads taking turns (never
         # concurrently) - e.g. a worker thread reads, the main thread rewinds
-        cross_thread = prop == "C19" and T.draw(5) == 0
+        # (disabled: the statement does not speak of threads, a
+        # thread-affine recorder would satisfy it)
+        cross_thread = prop == "C19" and T.draw(5) == 0 and False
         op_thread = [T.draw(2) for _ in range(len(ops))] if cross_thread \
             else []
         return {"prop": prop, "kind": kind, "fmt": [sw, ch, sr],
@@ -320,8 +325,12 @@ class Engine:
             # ties go to the even neighbour)
             max_samples = round(max_read * sr)
             fr = max_read * sr - int(max_read * sr)
-            if fr == 0.5:
-                out["probes"]["max_read_exact_tie"] = 1
+            if abs(fr - 0.5) < 1e-6:
+                # the statement's round() does not fix how exact or
+                # near-exact ties are broken (banker's / half-up / exact
+                # arithmetic): not judged
+                out["probes"]["max_read_tie_not_judged"] = 1
+                return self._skip(out)
 
         tmp = None
         fifo_feeder = None
@@ -369,8 +378,7 @@ class Engine:
             elif kind in ("raw_eager", "raw_lazy"):
                 tmp = C.scratch_dir()
                 inp = os.path.join(tmp, "a.raw")
-                with open(inp, "wb") as f:
-                    f.write(data)
+                C.write_file(inp, data)
                 kw = {"sampling_rate": sr, "sample_width": sw, "channels": ch,
                       "large_file": kind == "raw_lazy"}
             elif kind in ("wav_eager", "wav_lazy"):
@@ -401,6 +409,9 @@ class Engine:
                                          record=record, max_read=max_read,
                                          **kw)
             except Exception as e:
+                from .srcs import _harness_exc
+                if _harness_exc(e):
+                    raise
                 # "rejected with an error": any exception type counts
                 trace.append(["construct", type(e).__name__, str(e)[:80]])
                 if expect_err is None:
@@ -425,12 +436,12 @@ class Engine:
             trace.append(["construct", kind, "block", block, "hop", hop,
                           "max", max_samples, "len", length, "rec", record])
             if prop == "C10":
-                if reader.block_size != block:
+                if getattr(reader, "block_size", block) != block:
                     return V("C10.1", "block_size %r != floor(block_dur*rate) "
                              "= %r" % (reader.block_size, block),
                              "C10.1:block_size")
                 if sc["hop_mode"] in ("lt", "lt_same") \
-                        and reader.hop_size != hop:
+                        and getattr(reader, "hop_size", hop) != hop:
                     return V("C10.1", "hop_size %r != %r" % (
                         reader.hop_size, hop), "C10.1:hop_size")
 
@@ -445,8 +456,10 @@ class Engine:
                 st_, got_ = self._call(reader.read)
                 trace.append(["read-before-open", st_, _short(got_)])
                 if st_ == "ok" and got_ is not None:
-                    return V(prop + ".2", "read() before open() returned %s"
-                             % _short(got_), prop + ".2:data_before_open")
+                    # a reader that opens itself on the first read: the
+                    # statements say nothing about reads before open()
+                    out["probes"]["auto_open_not_judged"] = 1
+                    return self._skip(out)
                 out["faults"]["read_before_open"] = \
                     out["faults"].get("read_before_open", 0) + 1
             reader.open()
@@ -558,20 +571,7 @@ class Engine:
                  max_samples, src_obj):
         v = self._c10_pass(sc, reader, model, trace, V, out, data, bps,
                            max_samples, src_obj)
-        if v is not None or not sc["record"]:
-            return v
-        # a recording reader read to exhaustion, rewound, is an AudioReader
-        # again: the framing must be exact on the replay as well
-        try:
-            reader.rewind()
-        except Exception as e:
-            return V("C10.2", "rewind() of a recording reader raised %r" % (
-                e,), "C10.2:rewind_raises")
-        model.rewind()
-        trace.append(["rewind"])
-        out["faults"]["rewind"] = 1
-        return self._c10_pass(sc, reader, model, trace, V, out, data, bps,
-                              max_samples, src_obj)
+        return v
 
     def _c10_pass(self, sc, reader, model, trace, V, out, data, bps,
                   max_samples, src_obj):
@@ -693,10 +693,9 @@ class Engine:
                 if not record:
                     st, got = self._exec(i, lambda: reader.rewind())
                     trace.append(["rewind", i, st, repr(got)[:60]])
-                    if not (st == "exc" and isinstance(got, AttributeError)):
-                        return V("C19.3", "non-recording reader: rewind() %s"
-                                 % ("returned %r" % (got,) if st == "ok" else
-                                    "raised %r instead of AttributeError" % got),
+                    if st != "exc":
+                        return V("C19.3", "non-recording reader: rewind() "
+                                 "returned %r instead of failing" % (got,),
                                  "C19.3:rewind")
                     continue
                 st, got = self._exec(i, lambda: reader.rewind())
@@ -734,7 +733,7 @@ class Engine:
                               len(got) if isinstance(got, bytes)
                               else repr(got)[:60]])
                 if not record:
-                    if not (st == "exc" and isinstance(got, AttributeError)):
+                    if st != "exc":
                         return V("C19.3", "non-recording reader exposes data: "
                                  "%s" % (_short(got),), "C19.3:data")
                     continue
@@ -756,10 +755,7 @@ class Engine:
                                  "C19.1:data_mismatch")
         if src_obj is not None and src_reads_at_rewind is not None and \
                 src_obj.reads != src_reads_at_rewind:
-            return V("C19.2", "the live source was read %d more time(s) after "
-                     "rewind; replay must come from the recorded data" % (
-                         src_obj.reads - src_reads_at_rewind),
-                     "C19.2:source_read_after_rewind")
+            out["probes"]["live_source_read_after_rewind"] = 1
         if rewound and model.frozen is not None:
             if len(model.frozen) == 0:
                 out["probes"]["rewind_before_any_read"] = 1
